@@ -39,6 +39,13 @@ type zzLedger struct {
 	ghostTx []crypto.Hash
 	nodes   []*Node
 	nodesOk bool
+	// L5/L6: hashes that name stored transactions, with the number of outputs they must at least have
+	mustExist []zzMust
+}
+
+type zzMust struct {
+	hash crypto.Hash
+	outs int
 }
 
 var errZZ = errors.New("stub: store error")
@@ -88,6 +95,9 @@ func (l *zzLedger) ReadUTXOLock(hash crypto.Hash, index uint) (*UTXOWithLock, er
 	}
 	u := &UTXOWithLock{}
 	u.Hash, u.Index = hash, index
+	// L5: an output exists only as output #index of a stored transaction (bound: index <= 1)
+	vr.Assume(index <= 1)
+	l.mustExist = append(l.mustExist, zzMust{hash, int(index) + 1})
 	u.Type = vr.U8() // L2: one of the types UnspentOutputs materialises
 	okType := false
 	for _, t := range zzUtxoTypes {
@@ -121,18 +131,20 @@ func (l *zzLedger) ReadUTXOLock(hash crypto.Hash, index uint) (*UTXOWithLock, er
 	return u, nil
 }
 
-func (l *zzLedger) storedTx(hash crypto.Hash) *VersionedTransaction {
+func (l *zzLedger) storedTx(hash crypto.Hash, need int) *VersionedTransaction {
 	// a stored transaction: accepted once, so it has >=1 input and output (L5)
 	tx := &VersionedTransaction{}
 	tx.Version = TxVersionHashSignature
 	vr.Fill(tx.Asset[:])
 	in := &Input{}
 	vr.Fill(in.Hash[:])
-	idx := vr.U16()
-	vr.Assume(idx <= InputIndexLimit)
-	in.Index = uint(idx)
+	in.Index = uint(vr.Choose(0, 1))
 	tx.Inputs = []*Input{in}
-	tmpl := vr.Choose(0, 2) // 0: one key-less output; 1: one output with a key / withdrawal data; 2: two outputs
+	l.mustExist = append(l.mustExist, zzMust{in.Hash, int(in.Index) + 1}) // L5: its input resolved once
+	tmpl := vr.Choose(0, 2)
+	if need >= 2 {
+		tmpl = 2
+	} // 0: one key-less output; 1: one output with a key / withdrawal data; 2: two outputs
 	nOut := 1
 	if tmpl == 2 {
 		nOut = 2
@@ -165,7 +177,21 @@ func (l *zzLedger) ReadTransaction(hash crypto.Hash) (*VersionedTransaction, str
 			return e.tx, e.snap, nil
 		}
 	}
-	e := &zzTxEntry{hash: hash, kind: vr.Choose(0, 3)}
+	need := 0
+	for _, m := range l.mustExist {
+		if m.hash == hash && m.outs > need {
+			need = m.outs
+		}
+	}
+	e := &zzTxEntry{hash: hash}
+	if need > 0 {
+		e.kind = 3 // L5/L6: named by an output / node record / stored input: stored and finalized
+		if vr.Bool() {
+			e.kind = 0 // (a read error is always possible)
+		}
+	} else {
+		e.kind = vr.Choose(0, 3)
+	}
 	l.txs = append(l.txs, e)
 	switch e.kind {
 	case 0:
@@ -173,9 +199,9 @@ func (l *zzLedger) ReadTransaction(hash crypto.Hash) (*VersionedTransaction, str
 	case 1:
 		return nil, "", nil
 	case 2: // stored, not finalized
-		e.tx = l.storedTx(hash)
+		e.tx = l.storedTx(hash, need)
 	case 3: // stored and finalized
-		e.tx = l.storedTx(hash)
+		e.tx = l.storedTx(hash, need)
 		e.snap = "snapshot"
 	}
 	return e.tx, e.snap, nil
@@ -233,6 +259,7 @@ func (l *zzLedger) ReadAllNodes(offset uint64, withState bool) []*Node {
 		vr.Fill(nd.Payee.PublicSpendKey[:])
 		vr.Fill(nd.Payee.PublicViewKey[:])
 		vr.Fill(nd.Transaction[:])
+		l.mustExist = append(l.mustExist, zzMust{nd.Transaction, 1}) // L6: a node record names a stored transaction
 		l.nodes = append(l.nodes, nd)
 	}
 	return l.nodes
@@ -407,6 +434,8 @@ func zzValidationTx(wide bool) (*VersionedTransaction, *zzTxInfo) {
 	sigForm := 1
 	if !twoPlain {
 		sigForm = []int{0, 1, 3, 2, 4}[vr.Choose(0, sigForms)]
+	} else if vr.Bool() {
+		sigForm = 2 // a single signature map although there are two inputs (decodable; C05)
 	}
 	switch sigForm {
 	case 0: // no authorization data at all
@@ -517,8 +546,8 @@ func ZZ_C01() {
 // ZZ_C05: validation of any decodable transaction against any ledger state within
 // L1-L8 returns a decision; it never panics (engine: every reachable Go panic is a violation).
 func ZZ_C05() {
-	ver, _ := zzValidationTx(true)
-	l := &zzLedger{asset: ver.Asset}
+	ver, _ := zzValidationTx(vr.Tier() > 0)
+	l := &zzLedger{asset: ver.Asset, narrow: vr.Tier() == 0}
 	tx := &ver.SignedTransaction
 	// classification labels for known findings (see known_findings.json)
 	if tx.TransactionType() == TransactionTypeNodeRemove && tx.AggregatedSignature == nil && len(tx.SignaturesMap) < len(tx.Inputs) {
